@@ -46,8 +46,14 @@ def main():
                 out['error'] = 'patch does not apply: ' + r.stderr[-300:]
                 print(sid, out['error'])
                 continue
-            r1 = sh(PY, demo, env=env, cwd=SCRATCH, timeout=300)
+            # (a demonstration may depend on per-process accidents such as the iteration order of the WeakSet of buses:
+            # up to 5 process runs, the number needed is recorded)
+            for attempt in range(1, 6):
+                r1 = sh(PY, demo, env=env, cwd=SCRATCH, timeout=300)
+                if r1.returncode != 0:
+                    break
             out['demo_with_change'] = r1.returncode
+            out['demo_with_change_runs_needed'] = attempt
             if a.suite:
                 rs = sh(PY, '-m', 'pytest', '-q', '-p', 'no:cacheprovider', '--timeout=900', '-q', env=env, cwd=SCRATCH, timeout=1800)
                 tail = [l for l in rs.stdout.splitlines() if ' passed' in l or ' failed' in l]
